@@ -1,3 +1,23 @@
-import FinProto.Obl.Side
+/- C02: every message is laid out on the wire exactly as the pinned schema says.  The regenerated op lists, frame
+   descriptors and tables equal the committed Pinned snapshot (kernel-evaluated); hence the library's encoder (the model
+   at Gen.env) produces exactly the bytes of the independent renderer `Spec.render` applied to the PINNED schema, for every
+   value (canonical or not), and decoding agrees with the pinned schema in the other direction. -/
+import FinProto.Obl.Pinned
+import FinProto.Props.RenderEq
 namespace FinProto.Obl
+open FinProto
+
+theorem C02_types : Gen.types = Pinned.types := gen_types_eq_pinned
+theorem C02_tables : Spec.tablesEquiv Gen.tables Pinned.tables = true := gen_tables_equiv_pinned
+
+theorem C02_repo (v : Val) (pre : Bytes) :
+    (∀ v' out, encode Gen.env v pre = .ok (v', out) → ∃ bs, Spec.render Pinned.env v = some bs ∧ out = pre ++ bs) ∧
+    (∀ bs, Spec.render Pinned.env v = some bs → ∃ v', encode Gen.env v pre = .ok (v', pre ++ bs)) := by
+  have h := render_table_equiv (env := Gen.env) (env' := Pinned.env) gen_tables_equiv_pinned gen_types_eq_pinned
+  rw [← h.2.2.2.2.1]
+  exact encode_eq_render Gen.env v pre
+
+theorem C02_decode : decode Gen.env = decode Pinned.env :=
+  (render_table_equiv (env := Gen.env) (env' := Pinned.env) gen_tables_equiv_pinned gen_types_eq_pinned).2.2.2.2.2.1
+
 end FinProto.Obl
